@@ -60,6 +60,11 @@ def run_partial_case(case):
 # lists the class was registered with guard it all the same - a finite table on the real code
 INIT_CASES = [{'dom': 'gin', '_kind': 'init_lists', 'lists': ls, 'first': first, 'ops': []}
               for ls in ('deny', 'allow') for first in ('init', 'class', 'method')]
+# ... and so it is for a class that is built by `__new__` (no `__init__` of its own): `mod.Cls.__new__.param` names its
+# constructor; `via`: how the class got its lists
+INIT_CASES += [{'dom': 'gin', '_kind': 'init_lists', 'lists': ls, 'first': first, 'ctor': '__new__', 'via': via, 'ops': []}
+               for ls in ('deny', 'allow') for first in ('init', 'class', 'method')
+               for via in ('register', 'external', 'decorator')]
 
 
 def run_init_case(case):
@@ -69,15 +74,25 @@ def run_init_case(case):
   gin = core.fresh_gin()
   mod = types.ModuleType('c11_vault_mod')
   sys.modules['c11_vault_mod'] = mod
-  exec('class Vault:\n  def __init__(self, label="l", secret="original"):\n    self.label, self.secret = label, secret\n'  # pylint: disable=exec-used
-       '  def open(self, code=0):\n    return code\n', mod.__dict__)
-  mod.Vault.__module__ = 'c11_vault_mod'
-  for fn in (mod.Vault.__init__, mod.Vault.open):
-    fn.__module__ = 'c11_vault_mod'
-  if case['lists'] == 'deny':
-    gin.register(mod.Vault, denylist=['secret'])
+  ctor = case.get('ctor', '__init__')
+  if ctor == '__init__':
+    exec('class Vault:\n  def __init__(self, label="l", secret="original"):\n    self.label, self.secret = label, secret\n'  # pylint: disable=exec-used
+         '  def open(self, code=0):\n    return code\n', mod.__dict__)
   else:
-    gin.register(mod.Vault, allowlist=['label'])
+    exec('class Vault:\n  def __new__(cls, label="l", secret="original"):\n    self = object.__new__(cls)\n'  # pylint: disable=exec-used
+         '    self.label, self.secret = label, secret\n    return self\n'
+         '  def open(self, code=0):\n    return code\n', mod.__dict__)
+  mod.Vault.__module__ = 'c11_vault_mod'
+  for fn in (getattr(mod.Vault, ctor), mod.Vault.open):
+    fn.__module__ = 'c11_vault_mod'
+  lists = {'denylist': ['secret']} if case['lists'] == 'deny' else {'allowlist': ['label']}
+  via = case.get('via', 'register')
+  if via == 'register':
+    gin.register(mod.Vault, **lists)
+  elif via == 'external':
+    gin.external_configurable(mod.Vault, **lists)
+  else:
+    mod.Vault = gin.configurable(**lists)(mod.Vault)
   dr = 'from __gin__ import dynamic_registration\nimport c11_vault_mod\n'
   facts = {}
   try:
@@ -87,12 +102,12 @@ def run_init_case(case):
       gin.parse_config(dr + 'c11_vault_mod.Vault.open.code = 3\n')
     before = {k: dict(v) for k, v in gin.config._CONFIG.items()}  # pylint: disable=protected-access
     try:
-      gin.parse_config(dr + 'c11_vault_mod.Vault.__init__.secret = "INJECTED"\n')
+      gin.parse_config(dr + f'c11_vault_mod.Vault.{ctor}.secret = "INJECTED"\n')
       facts['excluded'] = 'accepted'
     except ValueError:
       facts['excluded'] = 'ValueError'
     facts['store_unchanged'] = {k: dict(v) for k, v in gin.config._CONFIG.items()} == before  # pylint: disable=protected-access
-    gin.parse_config(dr + 'c11_vault_mod.Vault.__init__.label = "through init"\n')
+    gin.parse_config(dr + f'c11_vault_mod.Vault.{ctor}.label = "through init"\n')
     inst = gin.get_configurable(mod.Vault)()
     facts['instance'] = [inst.label, inst.secret]
   except Exception as e:  # pylint: disable=broad-except
@@ -102,7 +117,63 @@ def run_init_case(case):
   return {'out': [], 'facts': facts}
 
 
+# config text parsed with skip_unknown given as a collection of names: a name in it that IS registered is not unknown,
+# so a binding to a parameter it does not offer is rejected like anywhere else - a finite table on the real code
+SKIP_CASES = [{'dom': 'gin', '_kind': 'skip_named', 'lists': ls, 'param': param, 'container': cont, 'form': form,
+               'spelling': sp, 'api': api, 'probe': probe, 'ops': []}
+              for ls, param in (('deny', 'seed'), ('allow', 'seed'), ('deny', 'no_such'), ('allow', 'no_such'),
+                                ('none', 'no_such'))
+              for cont in ('list', 'tuple', 'set') for form in ('text', 'scoped', 'block')
+              for sp in ('full', 'partial') for api in ('parse_config', 'files_and_bindings')
+              for probe in (('fn',) if api == 'files_and_bindings' else ('fn', 'class'))]
+
+
+def run_skip_case(case):
+  import core
+  gin = core.fresh_gin()
+  g = {'__name__': 'sk'}
+  if case['probe'] == 'fn':
+    exec('def evaluate(model="m", seed=0):\n  return [model, seed]\n', g)  # pylint: disable=exec-used
+  else:
+    exec('class evaluate:\n  def __init__(self, model="m", seed=0):\n    self.got = [model, seed]\n', g)  # pylint: disable=exec-used
+  lists = {'deny': {'denylist': ['seed']}, 'allow': {'allowlist': ['model']}, 'none': {}}[case['lists']]
+  evaluate = gin.configurable(**lists)(g['evaluate']) if lists else gin.configurable(g['evaluate'])
+  spelled = 'sk.evaluate' if case['spelling'] == 'full' else 'evaluate'
+  names = ['train', spelled, 'zz.other']
+  skip = {'list': list, 'tuple': tuple, 'set': set}[case['container']](names)
+  param = case['param']
+  text = {'text': f'{spelled}.{param} = 7\n', 'scoped': f'a/b/{spelled}.{param} = 7\n',
+          'block': f'{spelled}:\n  {param} = 7\n'}[case['form']]
+
+  def parse(t):
+    if case['api'] == 'parse_config':
+      gin.parse_config(t, skip_unknown=skip)
+    else:
+      gin.parse_config_files_and_bindings([], [t], finalize_config=False, skip_unknown=skip)
+  facts = {}
+  try:
+    gin.parse_config('sk.evaluate.model = "big"\n')
+    before = {k: dict(v) for k, v in gin.config._CONFIG.items()}  # pylint: disable=protected-access
+    try:
+      parse(text)
+      facts['rejected'] = 'accepted'
+    except ValueError:
+      facts['rejected'] = 'ValueError'
+    facts['store_unchanged'] = {k: dict(v) for k, v in gin.config._CONFIG.items()} == before  # pylint: disable=protected-access
+    with gin.config_scope('a/b'):
+      r = evaluate()
+    facts['received'] = r if case['probe'] == 'fn' else r.got
+  except Exception as e:  # pylint: disable=broad-except
+    facts['error'] = f'{type(e).__name__}: {e}'[:300]
+  return {'out': [], 'facts': facts}
+
+
+TABLE_KINDS = ('partial', 'init_lists', 'skip_named')
+
+
 def run_impl(case):
+  if case.get('_kind') == 'skip_named':
+    return run_skip_case(case)
   if case.get('_kind') == 'init_lists':
     return run_init_case(case)
   if case.get('_kind') == 'partial':
@@ -121,7 +192,7 @@ def to_driver(case, impl):
 
 
 def compare(case, impl, model):
-  if case.get('_kind') in ('partial', 'init_lists'):
+  if case.get('_kind') in TABLE_KINDS:
     return None
   if _dyn(case):
     from props import c19
@@ -130,7 +201,7 @@ def compare(case, impl, model):
 
 
 def tally(stats, case, impl):
-  if case.get('_kind') in ('partial', 'init_lists'):
+  if case.get('_kind') in TABLE_KINDS:
     stats[case['_kind'] + '_cases'] = stats.get(case['_kind'] + '_cases', 0) + 1
     return
   if _dyn(case):
@@ -146,7 +217,7 @@ ID = 'C11'
 DOMAIN = 'gin/state'
 PROPS_FILES = ['Gin/Props/C11.lean', 'Gin/Props/C11b.lean']
 ANCHOR_FILES = ['config.py', 'selector_map.py']
-RULE = ('[fn probes under functools.wraps layers; class probes whose base defines the other constructor with *args/**kwargs; registered methods with their own allow/deny list] '
+RULE = ('[finite tables: partials; `Cls.__init__` / `Cls.__new__` under dynamic registration; skip_unknown collections naming a registered configurable] [fn probes under functools.wraps layers; class probes whose base defines the other constructor with *args/**kwargs; registered methods with their own allow/deny list] '
         '2-4 registered probes with random signatures and allow/deny lists (sometimes a class whose method was '
         'registered first), then 6-14 binding attempts drawn from {valid, unknown configurable, unknown parameter, '
         'not allowlisted, denylisted, method without class, ambiguous spelling} x {tuple, list, string key, config '
@@ -229,6 +300,7 @@ def gen_case(rng):
 def gen_cases(rng, tier, boost=1):
   yield from PARTIAL_CASES
   yield from INIT_CASES
+  yield from SKIP_CASES
   n = (800 if tier == 'quick' else 20000) * boost
   for _ in range(n):
     yield gen_case(rng)
@@ -246,13 +318,23 @@ def gen_cases(rng, tier, boost=1):
 
 
 def oracle(case, impl):
+  if case.get('_kind') == 'skip_named':
+    f = impl['facts']
+    if ('error' in f or f.get('rejected') != 'ValueError' or not f.get('store_unchanged')
+        or f.get('received') != ['big', 0]):
+      what = {'seed': 'a parameter outside its allowlist / inside its denylist', 'no_such': 'a parameter it does not have'}
+      return (f'config text binding {what[case["param"]]} of a registered configurable, parsed with skip_unknown given as a '
+              f'{case["container"]} that names it ({case["form"]}, {case["spelling"]} selector, {case["api"]}, '
+              f'{case["probe"]} registered with lists: {case["lists"]}) must raise, leave the store as it was and inject '
+              f'nothing: {f}')
+    return None
   if case.get('_kind') == 'init_lists':
     f = impl['facts']
     # (a binding on the class itself reaches the constructor as a caller's value and so wins over one on `Cls.__init__`)
     want = ['first' if case['first'] == 'class' else 'through init', 'original']
     if 'error' in f or f.get('excluded') != 'ValueError' or not f.get('store_unchanged') or f.get('instance') != want:
-      return (f'a class registered with a {case["lists"]} list, its constructor named as `Cls.__init__` under dynamic registration '
-              f'(first statement: {case["first"]}): {f}')
+      return (f'a class registered with a {case["lists"]} list (through {case.get("via", "register")}), its constructor named as '
+              f'`Cls.{case.get("ctor", "__init__")}` under dynamic registration (first statement: {case["first"]}): {f}')
     return None
   if case.get('_kind') == 'partial':
     f = impl['facts']
@@ -272,7 +354,7 @@ def oracle(case, impl):
 
 
 def nontrivial(case, impl):
-  if case.get('_kind') in ('partial', 'init_lists'):
+  if case.get('_kind') in TABLE_KINDS:
     return True
   if _dyn(case):
     return impl.get('err') == 'ValueError' or bool(impl.get('bindings'))
@@ -287,7 +369,7 @@ def nontrivial(case, impl):
 
 
 def shrink(case):
-  if case.get('_kind') in ('partial', 'init_lists'):
+  if case.get('_kind') in TABLE_KINDS:
     return
   if _dyn(case):
     from props import c19
